@@ -138,6 +138,7 @@ class World:
         self.dropped: list[Datagram] = []
         self.seq = 0
         self.send_hook: Callable[[Datagram], Datagram | None] | None = None
+        self.idle_hook: Callable[[], bool] | None = None   # called when the network went quiet; True = more in flight
         self.undeliverable: list[Datagram] = []
         self.closed = False
 
@@ -200,11 +201,14 @@ class World:
         """Deliver in FIFO order without letting time pass until nothing is in flight or runnable."""
         n = 0
         self.loop.settle()
-        while self.inflight:
-            self.deliver(0)
-            n += 1
-            if n > max_steps:
-                raise vloop.LoopStuck("network did not go quiet")
+        while True:
+            while self.inflight:
+                self.deliver(0)
+                n += 1
+                if n > max_steps:
+                    raise vloop.LoopStuck("network did not go quiet")
+            if self.idle_hook is None or not self.idle_hook():
+                break
         return n
 
     def run_for(self, dt: float, deliver: bool = True) -> None:
